@@ -61,7 +61,7 @@ def _cov_writers(chk, repo):
 
 
 def run(chk, repo: Repo):
-    chk.rule("C15-R1", "covariance consumers normalise scalar, vector and matrix storage forms", floor=4)
+    chk.rule("C15-R1", "covariance consumers normalise scalar (also as a length-one 1-D array), vector and matrix storage forms", floor=4)
     chk.rule("C15-R2", "closed-form MAP: Tarantola (3.37-3.38) from get_matrix(), data, prior mean/cov, noise cov; route selected by type and size", floor=2)
     chk.rule("C15-R3", "optimiser receives -logd and -gradient of the same density; result wrapped with that density's geometry", floor=3)
     chk.rule("C15-R4", "direct sampling: x_map.parameters + chol(inv(A.T Ce^-1 A + Cx^-1)) @ N(0, I)", floor=1)
